@@ -645,6 +645,8 @@ static void t_enumerate(a_ctx_t *gp, int mi)
 #undef g
 }
 
+#include "c08_peer12.h"
+
 static void run_group(long gi, void *unused)
 {
     static gctx_t g;
@@ -653,7 +655,11 @@ static void run_group(long gi, void *unused)
     if (groups[gi].ci >= 1000)
     {
         int x = groups[gi].ci - 1000;
-        if (x >= 200)
+        if (x >= 300)
+        {
+            v_run_group((x - 300) / 2, (x - 300) % 2);
+        }
+        else if (x >= 200)
         {
             u_run_group(groups[gi].p);
         }
@@ -853,6 +859,28 @@ int main(int argc, char **argv)
         static gctx_t g;
         mx_result_t r;
         int ci, pp, v, k, o, x;
+        if (replay[0] == 'V')
+        {
+            static v_ctx_t vg;
+            int vci, a, b;
+            if (sscanf(replay, "V;c=%d;v=%d;k=%d;a=%d;b=%d", &vci, &v, &k, &a, &b) != 5 || vci >= NVCFG || k >= V_NK)
+            {
+                return 2;
+            }
+            memset(&vg, 0, sizeof(vg));
+            vg.ci = vci; vg.victim = v;
+            if (v_setup(&vg) != 0)
+            {
+                fprintf(stderr, "cannot set up the post-handshake world\n");
+                return 2;
+            }
+            vg.kind = k; vg.a = a; vg.b = b;
+            memset(&r, 0, sizeof(r));
+            snprintf(r.desc, sizeof(r.desc), "%s", replay);
+            v_run_case(&vg, &r);
+            mx_replay_print(&r);
+            return 0;
+        }
         if (replay[0] == 'T')
         {
             static a_ctx_t tg;
@@ -924,6 +952,16 @@ int main(int argc, char **argv)
         groups[ngroups].ci = 1000 + 200;   /* part U: post-handshake messages, per NewSessionTicket message */
         groups[ngroups].p = i;
         ngroups++;
+    }
+    /* part V: malicious (D)TLS <= 1.2 peer after the handshake, one group per (configuration, victim) */
+    for (i = 0; i < NVCFG; i++)
+    {
+        if (!thorough && i >= 4)
+        {
+            continue;
+        }
+        groups[ngroups].ci = 1000 + 300 + 2 * i; groups[ngroups].p = 0; ngroups++;
+        groups[ngroups].ci = 1000 + 300 + 2 * i + 1; groups[ngroups].p = 0; ngroups++;
     }
     for (i = 0; i < ncfg && !getenv("MXV_C08_ONLY_PEER13"); i++)
     {
